@@ -291,3 +291,11 @@ UNITS += [
                                       implies('g_q < self->_count', 'self->_items[g_q] == (g_q < __CPROVER_loop_entry(self->_count) ? __CPROVER_loop_entry(self->_items[g_q]) : other->_items[g_q - __CPROVER_loop_entry(self->_count)])')],
                            decreases='other->_count - __begin0._cursor')})}),
 ]
+
+# the whole-array append needs ~2.5 min at capacity 255: thorough tier; the quick tier proves the same contract for capacity <= 24
+_aa = [u for u in UNITS if u['id'] == 'c20.dynamic.append_array_u8'][0]
+_aa['tier'] = 'thorough'
+_q = dict(_aa); _q['id'] = 'c20.dynamic.append_array_u8.cap24'; _q['tier'] = 'quick'
+_q['consts'] = {'DynamicArrayT__NCapacity': ('range', 1, 24)}; _q['array_max'] = {'DynamicArrayT._items': 24}
+_q['bounded'] = 'capacity <= 24 (the thorough tier proves 1..255)'
+UNITS.append(_q)
